@@ -26,7 +26,7 @@ pub type Snap = (World, MemStore, BlockInfo);
 
 pub type MtApp = App<
     BankKeeper,
-    cosmwasm_std::testing::MockApi,
+    mc::world::KApi,
     MemStore,
     FailingModule<Empty, Empty, Empty>,
     WasmKeeper<Empty, Empty>,
@@ -166,6 +166,7 @@ impl Pair {
             names.insert(a.clone(), l.to_string());
         }
         let app: MtApp = AppBuilder::new()
+            .with_api(mc::world::api())
             .with_storage(MemStore::new())
             .with_block(block)
             .build(|router, _api, storage| {
